@@ -48,15 +48,23 @@ type Source struct {
 	unblockCalls int
 	statsCalls   int
 
-	// pause window of the current event (set by the driver before the event, cleared after)
-	win      *Window
-	winKind  ActKind
-	winEvent int
-	inDone   bool
-	nextIn   int
-	preDone  bool
-	postDone bool
+	// pause window of the current event (set by the driver before the event, cleared after); the pointer is
+	// read under mu, the state behind it is only touched by the goroutine that currently runs a call-back
+	ws *winState
 }
+
+type winState struct {
+	win          *Window
+	kind         ActKind
+	event        int
+	inDone       bool
+	nextIn       int
+	preDone      bool
+	postDone     bool
+	armOverflows int // overflow reports seen when the window was armed
+}
+
+func (s *Source) window() *winState { s.mu.Lock(); defer s.mu.Unlock(); return s.ws }
 
 func newSource(run *runState, name string, idx int) *Source {
 	return &Source{name: name, idx: idx, run: run, pkts: make(chan delivery), unblk: make(chan struct{}, 64), stop: make(chan struct{})}
@@ -123,33 +131,37 @@ func (s *Source) Unblock() error {
 	s.mu.Lock()
 	s.unblockCalls++
 	n := s.unblockCalls
-	w := s.win
+	ws := s.ws
 	s.mu.Unlock()
-	if w != nil {
+	if ws != nil {
+		w := ws.win
 		switch {
-		case n == 1 && w.Pre != nil && !s.preDone:
-			s.preDone = true
+		case n == 1 && w.Pre != nil && !ws.preDone:
+			ws.preDone = true
 			// the lock request is placed, the capture has not been woken yet: the packet is taken by the normal path
 			synctest.Wait()
 			if s.isParked() {
 				if err := s.deliver(w.Pre); err != nil {
 					s.run.fail(err)
 				} else {
-					s.run.consumed(s, w.Pre, "pre")
+					s.run.consumed(s, ws, w.Pre, "pre")
 				}
 			} else {
-				s.run.deferPkt(s, w.Pre)
+				s.run.deferPkt(s, ws, w.Pre)
 			}
 		case n == 2:
 			// the unlock request is placed, the capture still waits for packets inside bufferPackets
-			if s.winKind == ActQuery && !s.inDone {
+			if ws.kind == ActQuery && !ws.inDone && len(w.In) > 0 {
 				s.run.note("query-hook-missed")
 			}
-			s.flushIn(w) // whatever was not delivered inside the window is deferred
-			if w.Post != nil && !s.postDone {
-				s.postDone = true
-				if !s.deliverInWindow(w.Post, "post") && !s.run.wasConsumed(w.Post) {
-					s.run.deferPkt(s, w.Post)
+			deferred := ws.nextIn < len(w.In) || s.run.overflows(s.name) > ws.armOverflows
+			s.flushIn(ws) // whatever was not delivered inside the window is deferred
+			if w.Post != nil && !ws.postDone {
+				ws.postDone = true
+				// after an overflow report the capture has left bufferPackets already; to keep the order of the window
+				// packets (In before Post) the Post packet is deferred together with the rest of the window
+				if deferred || (!s.deliverInWindow(ws, w.Post, "post") && !s.run.wasConsumed(w.Post)) {
+					s.run.deferPkt(s, ws, w.Post)
 				}
 			}
 		}
@@ -167,11 +179,10 @@ func (s *Source) Stats() (slimcap.Stats, error) {
 	st := slimcap.Stats{PacketsReceived: s.recv}
 	s.recv = 0
 	s.statsCalls++
-	w := s.win
-	kind := s.winKind
+	ws := s.ws
 	s.mu.Unlock()
-	if w != nil && kind != ActQuery {
-		s.runIn(w)
+	if ws != nil && ws.kind != ActQuery {
+		s.runIn(ws)
 	}
 	return st, nil
 }
@@ -179,25 +190,32 @@ func (s *Source) Stats() (slimcap.Stats, error) {
 // queryHook is called from the logger hook inside Capture.flowMap (live query, lock held).
 func (s *Source) queryHook() {
 	s.mu.Lock()
-	w := s.win
-	ok := w != nil && s.winKind == ActQuery && s.unblockCalls == 1 && !s.inDone
+	ws := s.ws
+	ok := ws != nil && ws.kind == ActQuery && s.unblockCalls == 1
 	s.mu.Unlock()
 	if ok {
-		s.runIn(w)
+		s.runIn(ws)
 	}
 }
 
-func (s *Source) runIn(w *Window) {
-	if s.inDone {
+func (s *Source) runIn(ws *winState) {
+	if ws.inDone {
 		return
 	}
-	s.inDone = true
-	for s.nextIn < len(w.In) {
-		p := w.In[s.nextIn]
-		s.nextIn++
-		if !s.deliverInWindow(p, "in") {
+	ws.inDone = true
+	if !ws.win.Empty() {
+		// the caller holds the lock; let the capture goroutine reach its wait for packets inside bufferPackets
+		// before the caller goes on to unlock. Without this point the caller can place the unlock request before
+		// the capture goroutine has looked for it once, and a Post packet would be taken by the normal loop
+		// (a legitimate schedule, but not an owned one)
+		synctest.Wait()
+	}
+	for ws.nextIn < len(ws.win.In) {
+		p := ws.win.In[ws.nextIn]
+		ws.nextIn++
+		if !s.deliverInWindow(ws, p, "in") {
 			if !s.run.wasConsumed(p) {
-				s.nextIn--
+				ws.nextIn--
 			}
 			break
 		}
@@ -205,15 +223,15 @@ func (s *Source) runIn(w *Window) {
 }
 
 // flushIn defers the window packets that were not delivered inside the window.
-func (s *Source) flushIn(w *Window) {
-	for ; s.nextIn < len(w.In); s.nextIn++ {
-		s.run.deferPkt(s, w.In[s.nextIn])
+func (s *Source) flushIn(ws *winState) {
+	for ; ws.nextIn < len(ws.win.In); ws.nextIn++ {
+		s.run.deferPkt(s, ws, ws.win.In[ws.nextIn])
 	}
 }
 
 // deliverInWindow delivers p if the capture is polling, lets everything settle and reports whether the
 // capture is polling again afterwards.
-func (s *Source) deliverInWindow(p *Packet, where string) bool {
+func (s *Source) deliverInWindow(ws *winState, p *Packet, where string) bool {
 	synctest.Wait()
 	if !s.isParked() {
 		return false
@@ -223,25 +241,26 @@ func (s *Source) deliverInWindow(p *Packet, where string) bool {
 		s.run.fail(err)
 		return false
 	}
-	s.run.consumed(s, p, where)
+	s.run.consumed(s, ws, p, where)
 	synctest.Wait()
 	if s.run.overflows(s.name) > before {
-		s.run.lost(s, p)
+		s.run.lost(s, ws, p)
 	}
 	return s.isParked()
 }
 
 func (s *Source) arm(w *Window, kind ActKind, event int) {
+	ws := &winState{win: w, kind: kind, event: event, armOverflows: s.run.overflows(s.name)}
 	s.mu.Lock()
-	s.win, s.winKind, s.winEvent = w, kind, event
-	s.unblockCalls, s.inDone, s.nextIn, s.preDone, s.postDone = 0, false, 0, false, false
+	s.ws = ws
+	s.unblockCalls = 0
 	s.mu.Unlock()
 }
 
 func (s *Source) disarm() (unblockCalls int) {
 	s.mu.Lock()
 	defer s.mu.Unlock()
-	s.win = nil
+	s.ws = nil
 	return s.unblockCalls
 }
 
